@@ -17,6 +17,7 @@ RULE = ("cases: ordered pairs of group-free ACE records with non-empty port sets
         "report == model built from the oracle's pairwise relation (each shadowed ACE once, under the first "
         "covering ACE). Non-trivial: oracle answer True (pairs), report non-empty (ACLs); both directions are "
         "counted as classes")
+RULE += ". Directed classes added after the seeded-change rounds: port_focus pairs; related 2^8..2^9 expansions; numeric rendering switches; standard-form entries; reports on ACLs numbered in any order, grouped by headings, with an entry appended afterwards"
 ASSUMPTIONS = ["refsem packet semantics; one sliver is left unjudged and counted: top port condition covering "
                "all of 1..65535 while bottom has none (whether port 0 exists is not fixed by the property)"]
 
